@@ -920,6 +920,7 @@ structure Faithful (sk : Skeleton) : Prop where
   fallbackNonFunc : sk.lkFallbackRejectsNonFunc = true
   argCount : sk.lkArgCountChecked = true
   perRequest : sk.lkResolvesPerRequest = true   -- `resolve` is a function of the CURRENT root: nothing resolved earlier is reused
+  argCountFirst : sk.lkArgCountBeforeDecode = true   -- the count check precedes every access to the parameter list (`Type().In(i)`), to `req.Args[i]` and every `MakeFunc`: `argCheck` is the first thing that looks at the arity
 
 theorem walkX_cons (sk : Skeleton) (hf : Faithful sk) (chk : Bool) (tt : TypeTable) (cur : Option RV)
     (name : String) (rest : List String) :
